@@ -1,6 +1,8 @@
 package main
 
 import (
+	"fmt"
+	"strings"
 	"encoding/json"
 	"go/ast"
 	"go/types"
@@ -33,6 +35,21 @@ type funcHints struct {
 	Results  []string    `json:"results"`
 	FreeVars []string    `json:"freevars"`
 	Locals   []localHint `json:"locals"`
+	// RangeVars: the key / value variables of the N-th loop (source order) when
+	// it is a range loop. If the loop is later rewritten without them (`for i :=
+	// range s` <-> `for _, x := range s` <-> an index loop), a contract that
+	// names them is read as rangeindexN + 1 / ranged(N)[rangeindexN + 1].
+	RangeVars []rangeHint `json:"rangevars,omitempty"`
+	// Defs: locals assigned exactly once from a selector path (min :=
+	// a.cfg.MinInterval). If such a temporary is later removed, a contract that
+	// names it is read as that path.
+	Defs map[string]string `json:"defs,omitempty"`
+}
+
+type rangeHint struct {
+	Loop  int    `json:"loop"`
+	Key   string `json:"key,omitempty"`
+	Value string `json:"value,omitempty"`
 }
 
 var nameHints map[string]*funcHints
@@ -100,6 +117,77 @@ func hintsOf(fn *ssa.Function) *funcHints {
 		}
 		return true
 	})
+	// loops in source order (the ordinals contracts use) and single-definition temporaries
+	loopN := 0
+	assigned := map[string]int{}
+	defs := map[string]string{}
+	var selPath func(e ast.Expr) string
+	selPath = func(e ast.Expr) string {
+		switch e := e.(type) {
+		case *ast.Ident:
+			return e.Name
+		case *ast.SelectorExpr:
+			if b := selPath(e.X); b != "" {
+				return b + "." + e.Sel.Name
+			}
+		case *ast.ParenExpr:
+			return selPath(e.X)
+		}
+		return ""
+	}
+	ast.Inspect(body, func(n ast.Node) bool {
+		switch s := n.(type) {
+		case *ast.FuncLit:
+			return false
+		case *ast.ForStmt:
+			loopN++
+		case *ast.RangeStmt:
+			loopN++
+			rh := rangeHint{Loop: loopN, Key: identName(s.Key), Value: identName(s.Value)}
+			if rh.Key == "_" {
+				rh.Key = ""
+			}
+			if rh.Value == "_" {
+				rh.Value = ""
+			}
+			if s.Tok.String() == ":=" && (rh.Key != "" || rh.Value != "") {
+				h.RangeVars = append(h.RangeVars, rh)
+			}
+		case *ast.AssignStmt:
+			for i, l := range s.Lhs {
+				if id, ok := l.(*ast.Ident); ok && id.Name != "_" {
+					assigned[id.Name]++
+					if len(s.Lhs) == len(s.Rhs) {
+						if p := selPath(s.Rhs[i]); strings.Contains(p, ".") {
+							defs[id.Name] = p
+						}
+					}
+				}
+			}
+		case *ast.ValueSpec:
+			for i, id := range s.Names {
+				assigned[id.Name]++
+				if len(s.Values) == len(s.Names) {
+					if p := selPath(s.Values[i]); strings.Contains(p, ".") {
+						defs[id.Name] = p
+					}
+				}
+			}
+		case *ast.IncDecStmt:
+			if id, ok := s.X.(*ast.Ident); ok {
+				assigned[id.Name] += 2
+			}
+		}
+		return true
+	})
+	for n, p := range defs {
+		if assigned[n] == 1 {
+			if h.Defs == nil {
+				h.Defs = map[string]string{}
+			}
+			h.Defs[n] = p
+		}
+	}
 	sort.Slice(ls, func(i, j int) bool { return ls[i].pos < ls[j].pos })
 	cnt := map[string]int{}
 	for _, l := range ls {
@@ -177,4 +265,34 @@ func writeHints(p *Program, cs *Contracts, verif string) error {
 		return err
 	}
 	return os.WriteFile(filepath.Join(verif, "lib", "locals.json"), b, 0o644)
+}
+
+// vanishedName: a contract names a local that no longer exists and that was not
+// renamed (no variable at its recorded position). If it was a range variable or
+// a single-definition temporary, return the spec expression it stood for.
+func vanishedName(fnName string, fn *ssa.Function, name string) string {
+	if fn == nil {
+		return ""
+	}
+	old := nameHints[fnName]
+	if old == nil {
+		if o := fn.Origin(); o != nil {
+			old = nameHints[shortName(o)]
+		}
+	}
+	if old == nil {
+		return ""
+	}
+	for _, r := range old.RangeVars {
+		if r.Value == name {
+			return fmt.Sprintf("ranged(%d)[rangeindex%d + 1]", r.Loop, r.Loop)
+		}
+		if r.Key == name {
+			return fmt.Sprintf("(rangeindex%d + 1)", r.Loop)
+		}
+	}
+	if p, ok := old.Defs[name]; ok {
+		return p
+	}
+	return ""
 }
